@@ -203,6 +203,10 @@ func classifyDiag(outcome, diag string) string {
 		return "server-stream-needs-correctable"
 	case strings.Contains(diag, "option 'gorums.correctable' is only valid for server-client stream methods"):
 		return "correctable-client-stream"
+	case strings.Contains(diag, "cannot be combined"):
+		return "call-types-combined"
+	case strings.Contains(diag, "option 'gorums.per_node_arg' cannot be used without a call type option"):
+		return "per-node-needs-call-type"
 	}
 	return "other"
 }
